@@ -108,7 +108,7 @@ Definition tag_name (k : tag) : string :=
   match k with
   | KCall => "call" | KBinOp => "binop" | KUnaryOp => "unop" | KCompare => "cmp" | KAttribute => "attr"
   | KSubscript => "sub" | KTuple => "tuple" | KList => "list" | KSet => "set" | KDict => "dict"
-  | KStoreAttr => "setattr" | KStoreSub => "setitem" | _ => "op"
+  | KNamedExpr => "walrus" | KStoreAttr => "setattr" | KStoreSub => "setitem" | _ => "op"
   end.
 
 Fixpoint join (l : list string) : string :=
